@@ -413,6 +413,11 @@ fn run_c02(ctx: &mut Ctx) {
                         case.spaced = k % 4 == 3;
                         case.no_tail = k % 7 == 3;
                         case.stale_ext = matches!(case.mode, Mode::InMemoryBuild) && k % 10 == 0;
+                        // the requested directory holds only symbolic links to the sources
+                        if style == 4 && k % 4 == 1 {
+                            case.linked = true;
+                            case.subdirs = false;
+                        }
                         if !dfs_case(ctx, "C02", C02_CLASSES, &case, cap, true, edge_count(mask) > 0) {
                             break 'all;
                         }
@@ -540,6 +545,11 @@ fn digraph_enumeration(ctx: &mut Ctx, prop: &'static str, classes: &'static [&'s
                     // pending at end of file must still count (cycle detection, ordering)
                     case.no_tail = style != 9 && k % 4 == 2;
                     case.spaced = style != 9 && k % 5 == 4;
+                    if style == 4 && k % 3 == 1 {
+                        // the requested directory holds only symbolic links to the sources
+                        case.linked = true;
+                        case.subdirs = false;
+                    }
                     let nontrivial = if cyclic_only_nontrivial { cyclic } else { n >= 2 || style >= 3 };
                     if !dfs_case(ctx, prop, classes, &case, cap, true, nontrivial) {
                         break 'all;
